@@ -505,6 +505,7 @@ func propC18(r *Run) {
 	r.exhaustive = true
 	c18Alphabet(r)
 	c18MatchTables(r)
+	c18Big(r)
 
 	// exhaustive small scopes: sequences up to length N x queries up to length 3
 	type scopeT struct {
